@@ -109,27 +109,41 @@ pub struct ArgsSpec {
     /// Put the flags after the positional globs instead of before.
     #[serde(default)]
     pub flags_last: bool,
+    /// Write long flags as one token (`--disable=keep-sorted`).
+    #[serde(default)]
+    pub joined_flags: bool,
 }
 
 impl ArgsSpec {
     /// argv without the program name.
     pub fn argv(&self) -> Vec<String> {
         let mut flags = Vec::new();
+        let joined = self.joined_flags;
+        let mut put = |long: &str, short: Option<&str>, value: String| {
+            match (self.long_flags || short.is_none(), short) {
+                (true, _) if joined => flags.push(format!("{long}={value}")),
+                (true, _) => {
+                    flags.push(long.to_string());
+                    flags.push(value);
+                }
+                (false, Some(s)) => {
+                    flags.push(s.to_string());
+                    flags.push(value);
+                }
+                (false, None) => unreachable!(),
+            }
+        };
         for v in &self.disable {
-            flags.push(if self.long_flags { "--disable" } else { "-d" }.to_string());
-            flags.push(v.clone());
+            put("--disable", Some("-d"), v.clone());
         }
         for v in &self.enable {
-            flags.push(if self.long_flags { "--enable" } else { "-e" }.to_string());
-            flags.push(v.clone());
+            put("--enable", Some("-e"), v.clone());
         }
         for g in &self.ignore {
-            flags.push("--ignore".to_string());
-            flags.push(g.clone());
+            put("--ignore", None, g.clone());
         }
         for (k, v) in &self.extensions {
-            flags.push(if self.long_flags { "--extension" } else { "-E" }.to_string());
-            flags.push(format!("{k}={v}"));
+            put("--extension", Some("-E"), format!("{k}={v}"));
         }
         let mut out = Vec::new();
         if self.list {
